@@ -5,7 +5,12 @@ CONSTANTS
   FlavourSets = {}
   Mode = "code"
   Runs = 9
+  FlavourPhase = 9
+  FaultKinds = {"none", "patchCorrupt", "patchTruncated", "badLastPatch", "wrongResultHash", "indexMissing", "indexGarbage", "indexEmpty", "writeFails", "renameFails"}
+  Entries = {"update_file"}
   RememberIndex = FALSE
   Emit = FALSE
+  EmitEvery = 1
+  EmitPhase = 0
 INVARIANT TOldOrNew
 CHECK_DEADLOCK FALSE
